@@ -20,6 +20,7 @@ import (
 	"os"
 	"path/filepath"
 	"runtime/debug"
+	"runtime/pprof"
 	"sort"
 	"time"
 
@@ -45,7 +46,14 @@ type handler struct {
 	nbeh   int
 }
 
-func New() sup.Handler { return &handler{graphs: map[string]gdbi.GraphInterface{}} }
+func New() sup.Handler {
+	if p := os.Getenv("VERIF_JOBSH_PROF"); p != "" { // developer aid: CPU profile of a worker
+		if f, err := os.Create(fmt.Sprintf("%s.%d", p, os.Getpid())); err == nil {
+			pprof.StartCPUProfile(f)
+		}
+	}
+	return &handler{graphs: map[string]gdbi.GraphInterface{}}
+}
 
 // loadGraph adds the spec graph; large graphs go in with one call per kind.
 func loadGraph(db gdbi.GraphDB, name string, g map[string]interface{}) (gdbi.GraphInterface, error) {
@@ -104,6 +112,7 @@ func (h *handler) Setup(req map[string]interface{}) error {
 }
 
 func (h *handler) Close() {
+	pprof.StopCPUProfile()
 	if h.st != nil {
 		h.st.Destroy()
 	}
